@@ -485,6 +485,27 @@ def stale_applications(h: History) -> list[dict[str, Any]]:
     return out
 
 
+def skip_overtaken(h: History) -> list[str]:
+    """Stages that were claimed (NOT_STARTED -> RUNNING) while a SkipStage message for them was live in the queue: an
+    OR-split did not activate the branch and queued SkipStage, but a StartStage that found the stage "ready" was
+    delivered first - the deactivated branch runs."""
+    import json as _json
+
+    live: dict[str, str] = {}      # queue row id -> stage id, for SkipStage rows
+    out = []
+    for r in h.audit:
+        if r["kind"] == "q_ins" and r["new"] == "SkipStage":
+            try:
+                live[r["row_id"]] = _json.loads((r["extra"] or {}).get("payload") or "{}").get("stage_id") or ""
+            except Exception:
+                pass
+        elif r["kind"] == "q_del":
+            live.pop(r["row_id"], None)
+        elif r["kind"] == "stage" and r["old"] == "NOT_STARTED" and r["new"] == "RUNNING" and r["row_id"] in live.values():
+            out.append(h.key_of_stage(r["row_id"]))
+    return out
+
+
 def recovery_duplicates(h: History) -> list[dict[str, Any]]:
     """Messages a recovery sweep queued for a *task* that already had a live message in the queue at that moment
     (delivered-but-unacknowledged and delayed rows are live too): the sweep's pending-message guard exists to prevent
